@@ -74,6 +74,14 @@ Example C09_nonvacuous :
      [OPkt T_CONNACK 0 true 0 0 0; OPkt T_PUBREL 1 false 0 0 0]].
 Proof. vm_compute. split; reflexivity. Qed.
 
+(* fault injection: the PUBREL answering the client's PUBREC cannot be written (processPubrec stores it BEFORE writing):
+   the session holds PUBREL and resends PUBREL, not PUBLISH; the monitor accepts *)
+Example C09_fault_nonvacuous :
+  model_verdict_f 9 (wcfg 2 8)
+    [(w_connect, false); (w_out 2 1, false); (w_ack T_PUBREC 1, true); ((Reconnect true false 300 1, [1]), false);
+     (w_ack T_PUBCOMP 1, false)] = None.
+Proof. vm_compute. reflexivity. Qed.
+
 Print Assumptions C09_modulo_findings.
 Print Assumptions C09_resend.
 Print Assumptions C09_puback_removes.
